@@ -100,6 +100,22 @@ theorem C01_exact_term_decides (cfg : Cfg) (hs : RealScheme cfg) (hnorm : ∀ c,
       (x.isSome = true ↔ ∃ t ∈ toks, OccursIn cfg cs norm p t) :=
   exact_term_decides cfg hs hnorm v2 cs norm fwd p hm wp cap toks htok
 
+/-- **Anchored terms are decided exactly** over any list of searched fields: `^t` is reported iff
+    some field has `t` right after its leading whitespace, `t$` iff some field has it right before
+    its trailing whitespace, `^t$` iff some field, trimmed, is `t` (whitespace is kept where the
+    term itself starts / ends with whitespace) — and the evaluation always returns. -/
+theorem C01_anchored_terms_decide (cfg : Cfg) (v2 : Bool) (cs norm fwd : Bool) (p : Array Nat) (hm : 0 < p.size) (wp : Bool) (cap : Nat)
+    (toks : List Tok) :
+    (∃ x, iter cfg v2 .prefix toks cs norm fwd p wp cap = .ok x ∧ (x.isSome = true ↔ ∃ t ∈ toks,
+      OccAt (fun c pc => foldTL cfg cs norm c == pc) t.text p (if !cfg.U.isSpace (p.getD 0 0) then leadingWhitespaces cfg t.text else 0))) ∧
+    (∃ x, iter cfg v2 .suffix toks cs norm fwd p wp cap = .ok x ∧ (x.isSome = true ↔ ∃ t ∈ toks,
+      p.size ≤ suffixEnd cfg t.text p ∧ OccAt (fun c pc => foldTL cfg cs norm c == pc) t.text p (suffixEnd cfg t.text p - p.size))) ∧
+    (∃ x, iter cfg v2 .equal toks cs norm fwd p wp cap = .ok x ∧ (x.isSome = true ↔ ∃ t ∈ toks,
+      ((t.text.size : Int) - (if !cfg.U.isSpace (p.getD 0 0) then leadingWhitespaces cfg t.text else 0 : Nat) -
+          (if !cfg.U.isSpace (p.getD (p.size - 1) 0) then trailingWhitespaces cfg t.text else 0 : Nat) = p.size ∧
+        OccAt (equalOk cfg cs norm) t.text p (if !cfg.U.isSpace (p.getD 0 0) then leadingWhitespaces cfg t.text else 0)))) :=
+  anchored_terms_decide cfg v2 cs norm fwd p hm wp cap toks
+
 /- The documented syntax, on concrete queries (kernel-evaluated; `U` = ASCII-only oracle). -/
 def asciiU : Unicode := ⟨fun c => if 65 ≤ c ∧ c ≤ 90 then c + 32 else c, fun c => c == 32 || (9 ≤ c && c ≤ 13), fun _ => 1⟩
 def cfgA : Cfg := ⟨asciiU, schemeDefault, id⟩
